@@ -194,7 +194,7 @@ class Ctx:
 
 EXC_CLASSES = {'KeyError': 'Py.Err.keyError', 'ValueError': 'Py.Err.valueError', 'TypeError': 'Py.Err.typeError',
                'IndexError': 'Py.Err.indexError', 'Exception': 'Py.Err.exception'}
-MUTATORS = ('append', 'extend', 'update')
+MUTATORS = ('append', 'extend', 'update', 'sort')
 
 
 class PyFn(Fn):
@@ -326,10 +326,10 @@ class PyFn(Fn):
         want = self.resolve(want)
         if r.ty == INTLIT:
             if want == NAT:
-                return R(r.txt, NAT, False)
+                return R(r.txt, NAT)
             if want == A:
                 self.literals.add(int(r.txt))
-                return R('(%s : α)' % r.txt, A, False)
+                return R('(%s : α)' % r.txt, A)
             if want[0] == 'u':
                 self.fail(node, 'integer literal whose type is not fixed by its context')
             self.fail(node, 'integer literal where %s is needed' % self.show(want))
@@ -382,7 +382,7 @@ class PyFn(Fn):
         else:
             out = '(Except.ok %s)' % r.txt
         for v, t in reversed(binds):
-            out = '(match %s with | Except.error e__ => Except.error e__ | Except.ok %s => %s)' % (t, v, out)
+            out = '(Py.caseE %s (fun e__ => Except.error e__) (fun %s => %s))' % (t, v, out)
         return out
 
     # ------------------------------------------------------------------ expressions
@@ -439,6 +439,9 @@ class PyFn(Fn):
             if t in self.penums:
                 en, code = self.penums[t]
                 return R('(%d : Nat)' % code, ('enum', en))
+            if t in self.known and 'py' in self.known[t] and self.known[t]['py'].get('property'):
+                call = ast.copy_location(ast.Call(func=node, args=[], keywords=[]), node)
+                return self.call_known(call, env, self.known[t], stmt=False)[0]
             # attribute of a reference variable: obj.x with obj in {A, B}
             if isinstance(node.value, ast.Name) and node.value.id in env and env[node.value.id].ty == ('ref',):
                 return self.ref_read(node, env)
@@ -585,6 +588,11 @@ class PyFn(Fn):
                 x = self.co(x, ct[1], node)
                 self.need_eq(ct[1], node)
                 return self.seq([x, c], lambda a: neg('(Py.dhas %s %s)' % (a[1], a[0])), BOOL)
+            if ct[0] == 'list' and self.resolve(ct[1]) == A:
+                # numbers: `==` through the order (IEEE: false for NaN, true for ±0)
+                x = self.co(x, A, node)
+                return self.seq([x, c], lambda a: neg('(List.any %s (fun y__ => (decide (%s ≤ y__) && decide (y__ ≤ %s))))'
+                                                      % (a[1], a[0], a[0])), BOOL)
             if ct[0] == 'list':
                 x = self.co(x, ct[1], node)
                 self.need_eq(ct[1], node)
@@ -650,6 +658,12 @@ class PyFn(Fn):
         self.fail(node, 'equality on %s' % self.show(t))
 
     def subscript(self, node, env):
+        if isinstance(node.value, ast.Attribute) and node.value.attr == 'shape' and isinstance(node.slice, ast.Constant) \
+                and node.slice.value == 0:
+            r = self.expr(node.value.value, env)
+            if self.resolve(r.ty)[0] != 'list':
+                self.fail(node, 'shape of a %s' % self.show(r.ty))
+            return self.seq([r], lambda a: '(%s).length' % a[0], NAT)   # first axis of an array = length of the list
         base = self.expr(node.value, env)
         bt = self.resolve(base.ty)
         idx = node.slice
@@ -669,11 +683,37 @@ class PyFn(Fn):
             self.need_eq(bt[1], node)
             self.raise_points += 1
             return self.seq([base, k], lambda a: '(Py.dgetE %s %s)' % (a[0], a[1]), bt[2], raises_result=True)
+        if bt[0] == 'list' and self.spec.get('total_index'):
+            # TOTALISED (spec `total_index`): an out-of-range index gives the default of the element type instead of IndexError
+            d = self.default(bt[1], node)
+            if isinstance(idx, ast.UnaryOp) and isinstance(idx.op, ast.USub) and isinstance(idx.operand, ast.Constant) \
+                    and idx.operand.value == 1:
+                return self.seq([base], lambda a: '((%s).getLastD %s)' % (a[0], d), bt[1])
+            k = self.expr(idx, env, NAT)
+            return self.seq([base, k], lambda a: '((%s).getD %s %s)' % (a[0], a[1], d), bt[1])
         if bt[0] == 'list':
             k = self.expr(idx, env, NAT)
             self.raise_points += 1
             return self.seq([base, k], lambda a: '(Py.lgetE %s %s)' % (a[0], a[1]), bt[1], raises_result=True)
         self.fail(node, 'subscript of a %s' % self.show(bt))
+
+    def default(self, t, node=None):
+        """the default value of a type (totalised indexing)"""
+        t = self.resolve(t)
+        if t == A:
+            self.literals.add(0)
+            return '(0 : α)'
+        if t == NAT:
+            return '0'
+        if t[0] in ('list', 'dict'):
+            return '[]'
+        if t[0] == 'tuple':
+            return '(' + ', '.join(self.default(x, node) for x in t[1]) + ')'
+        if t == STR:
+            return '""'
+        if t == BOOL:
+            return 'false'
+        self.fail(node, 'no default value for %s' % self.show(t))
 
     def ref_read(self, node, env):
         """obj.x for a reference variable obj: the attribute of the object it refers to"""
@@ -701,6 +741,7 @@ class PyFn(Fn):
 
     def call(self, node, env, want=None):
         f = ast.unparse(node.func)
+        node = self.expand_star(node, env)
         if any(isinstance(a, ast.Starred) for a in node.args) or any(k.arg is None for k in node.keywords):
             self.fail(node, 'star arguments')
         key = self.ext_key(node)
@@ -724,6 +765,39 @@ class PyFn(Fn):
             if t[0] not in ('list', 'dict') and t != STR:
                 self.fail(node, 'len of a %s' % self.show(t))
             return self.seq([r], lambda a: '(%s).length' % a[0], NAT)
+        if f in ('np.array', 'np.asarray', 'numpy.array', 'numpy.asarray') and len(node.args) == 1 and not node.keywords:
+            r = self.expr(node.args[0], env)
+            if self.resolve(r.ty)[0] != 'list':
+                self.fail(node, 'np.array of a %s' % self.show(r.ty))
+            return r                                      # a 1-D array is modelled as the list of its elements
+        if f in ('np.zeros_like', 'numpy.zeros_like') and len(node.args) == 1 and not node.keywords:
+            r = self.expr(node.args[0], env)
+            if self.resolve(r.ty) != ('list', A):
+                self.fail(node, 'np.zeros_like of a %s' % self.show(r.ty))
+            self.literals.add(0)
+            return self.seq([r], lambda a: '(List.map (fun _ => (0 : α)) %s)' % a[0], ('list', A))
+        if f in ('min', 'max') and len(node.args) == 1 and not node.keywords:
+            r = self.expr(node.args[0], env)
+            if self.resolve(r.ty) != ('list', A):
+                self.fail(node, '%s of a %s' % (f, self.show(r.ty)))
+            self.raise_points += 1
+            return self.seq([r], lambda a: '(Py.%sE %s)' % (f, a[0]), A, raises_result=True)
+        if f in ('min', 'max') and len(node.args) == 2 and not node.keywords:
+            a_, b_ = self.expr(node.args[0], env), self.expr(node.args[1], env)
+            if a_.ty == INTLIT and b_.ty != INTLIT:
+                a_ = self.co(a_, b_.ty, node)
+            if b_.ty == INTLIT and a_.ty != INTLIT:
+                b_ = self.co(b_, a_.ty, node)
+            t = self.unify(a_.ty, b_.ty, node)
+            if t == NAT:
+                return self.seq([a_, b_], lambda a: '(%s %s %s)' % (f, a[0], a[1]), NAT)
+            if t == A:
+                if f == 'max':      # Python: the first maximal argument
+                    return self.seq([a_, b_], lambda a: '(if %s < %s then %s else %s)' % (a[0], a[1], a[1], a[0]), A)
+                return self.seq([a_, b_], lambda a: '(if %s < %s then %s else %s)' % (a[1], a[0], a[1], a[0]), A)
+            self.fail(node, '%s of %s' % (f, self.show(t)))
+        if f in self.known and 'py' not in self.known[f]:
+            return self.call_base(node, env, self.known[f])
         if f in ('dict', 'list') and len(node.args) == 1 and not node.keywords:
             r = self.expr(node.args[0], env)
             t = self.resolve(r.ty)
@@ -739,6 +813,16 @@ class PyFn(Fn):
                 return self.str_format(node, env)
             base = self.expr(recv, env)
             bt = self.resolve(base.ty)
+            if bt == ('list', A) and m in ('max', 'min') and not node.args and not node.keywords:
+                self.raise_points += 1
+                return self.seq([base], lambda a: '(Py.%sE %s)' % (m, a[0]), A, raises_result=True)
+            if bt == ('list', A) and m == 'searchsorted' and len(node.args) == 1 \
+                    and all(k.arg == 'side' and isinstance(k.value, ast.Constant) and k.value.value in ('left', 'right')
+                            for k in node.keywords) and len(node.keywords) <= 1:
+                side = node.keywords[0].value.value if node.keywords else 'left'
+                v = self.expr(node.args[0], env, A)
+                fnm = 'Py.searchsortedRight' if side == 'right' else 'Py.searchsortedLeft'
+                return self.seq([base, v], lambda a: '(%s %s %s)' % (fnm, a[0], a[1]), NAT)
             if bt == STR and m == 'lower' and not node.args and not node.keywords:
                 return self.seq([base], lambda a: '(Py.lower %s)' % a[0], STR)
             if bt[0] == 'tv' and m in self.obj_methods.get(bt[1], {}):
@@ -770,6 +854,65 @@ class PyFn(Fn):
             self.add_param(d['lean'], ' → '.join([wt, self.lty(ft)] + [self.lty(t) for t in ats] + [self.lty(rt)]))
             return self.seq([fn] + rs, lambda a: '(%s %s %s)' % (d['lean'], wcell, ' '.join(a)), rt)
         self.fail(node, 'unsupported call')
+
+    def call_base(self, node, env, known):
+        """a call of a function translated by the base dialect of translate.py in the same file (scalar kernels).  An 'elem'
+        parameter is element-wise: given lists, the kernel is applied element by element (numpy requires equal lengths; with
+        unequal lengths `List.zipWith` stops at the shorter one — a totalisation)"""
+        kinds = [k for k in known['arg_kinds']]
+        if node.keywords or len(node.args) != len(kinds):
+            self.fail(node, 'call does not match the parameters of the translated function')
+        rs, lifted = [], []
+        for a, k in zip(node.args, kinds):
+            if k == 'skip':
+                continue
+            if k not in ('s', 'elem'):
+                self.fail(node, 'a parameter of kind %s of a base-dialect function' % k)
+            r = self.expr(a, env)
+            if r.ty == INTLIT:
+                r = self.co(r, A, node)
+            t = self.resolve(r.ty)
+            if k == 'elem' and t == ('list', A):
+                lifted.append(len(rs))
+            elif t != A:
+                self.fail(node, 'argument of type %s for a parameter of kind %s' % (self.show(t), k))
+            rs.append(r)
+        for nm, ty in known['extra_params']:
+            self.add_param(nm, ty)
+        extras = [nm for nm, _ in known['extra_params']]
+        if not lifted:
+            return self.seq(rs, lambda a: '(%s %s)' % (known['lean'], ' '.join(a + extras)), A)
+        if len(lifted) > 2:
+            self.fail(node, 'more than two element-wise array arguments')
+
+        def build(a):
+            vs = ['a__', 'b__'][:len(lifted)]
+            inner = list(a)
+            for v, i in zip(vs, lifted):
+                inner[i] = v
+            body = '(%s %s)' % (known['lean'], ' '.join(inner + extras))
+            if len(lifted) == 1:
+                return '(List.map (fun a__ => %s) %s)' % (body, a[lifted[0]])
+            return '(List.zipWith (fun a__ b__ => %s) %s %s)' % (body, a[lifted[0]], a[lifted[1]])
+        return self.seq(rs, build, ('list', A))
+
+    def expand_star(self, c, env):
+        """f(x, *t) with t a tuple-typed variable: f(x, t[0], t[1], …)"""
+        if not any(isinstance(a, ast.Starred) for a in c.args):
+            return c
+        args = []
+        for a in c.args:
+            if isinstance(a, ast.Starred):
+                k = self.key_of(a.value)
+                v = env.get(k) if k else None
+                t = self.resolve(v.ty) if v else None
+                if t is None or t[0] != 'tuple':
+                    self.fail(c, 'a starred argument that is not a tuple variable')
+                for i in range(len(t[1])):
+                    args.append(ast.copy_location(ast.Subscript(value=a.value, slice=ast.Constant(value=i), ctx=ast.Load()), a))
+            else:
+                args.append(a)
+        return ast.copy_location(ast.Call(func=c.func, args=args, keywords=c.keywords), c)
 
     def str_format(self, node, env):
         tpl = node.func.value.value
@@ -1083,13 +1226,16 @@ class PyFn(Fn):
         self.fail(s, 'unsupported exception expression')
 
     def bind_value(self, r, ctx, env, ind, use):
-        """evaluate `r`; `use(text, env, ind)` continues with the value.  The parts that may raise are matched on, in order."""
+        """evaluate `r`; `use(text, env, ind)` continues with the value.  The parts that may raise are eliminated with
+        `Py.caseE`, in order."""
         out = ''
+        close = ''
         for v, t in r.binds:
-            out += ('%smatch %s with\n%s| Except.error e__ =>\n%s%s| Except.ok %s =>\n'
-                    % (ind, t, ind, ctx.raise_('e__', env, ind + '  '), ind, v))
-            ind += '  '
-        return out + use(r.txt, env, ind)
+            out += ('%sPy.caseE %s (fun e__ =>\n%s%s  ) (fun %s =>\n'
+                    % (ind, t, ctx.raise_('e__', env, ind + '    '), ind, v))
+            close = '%s  )\n' % ind + close
+            ind += '    '
+        return out + use(r.txt, env, ind) + close
 
     def assign(self, s, target, value, env, ctx, ind, cont):
         env = dict(env)
@@ -1197,6 +1343,28 @@ class PyFn(Fn):
         env = dict(env)
         f = ast.unparse(c.func)
         # container mutators
+        if target is None and isinstance(c.func, ast.Attribute) and c.func.attr == 'sort' \
+                and self.key_of(c.func.value) is not None and not c.args:
+            key = self.key_of(c.func.value)
+            v = self.check_mutation(key, env, s)
+            t = self.resolve(v.ty)
+            if t[0] != 'list':
+                self.fail(s, 'sort of a %s' % self.show(t))
+            keyfn, kt = '(fun e__ => e__)', t[1]
+            if c.keywords:
+                kw = c.keywords[0]
+                m = re.fullmatch(r'(operator\.)?itemgetter\((\d+)\)', ast.unparse(kw.value))
+                et = self.resolve(t[1])
+                if len(c.keywords) != 1 or kw.arg != 'key' or not m or et[0] != 'tuple' or int(m.group(2)) >= len(et[1]):
+                    self.fail(s, 'unsupported sort key')
+                i = int(m.group(2))
+                keyfn, kt = '(fun e__ => %s)' % self.proj('e__', i, len(et[1])), et[1][i]
+            if self.resolve(kt) not in (A, NAT):
+                self.fail(s, 'sort by keys of type %s' % self.show(kt))
+            env = dict(env)
+            env[key] = Var(v.cell, v.ty, v.alias)
+            return '%slet %s := (Py.sortOn (fun a__ b__ => decide (a__ < b__)) %s %s)\n' % (ind, v.cell, keyfn, v.cell) \
+                + cont(env, ind)
         if target is None and isinstance(c.func, ast.Attribute) and c.func.attr in MUTATORS \
                 and self.key_of(c.func.value) is not None and len(c.args) == 1 and not c.keywords:
             key = self.key_of(c.func.value)
@@ -1288,6 +1456,7 @@ class PyFn(Fn):
         return R(txt, sig['ret_ty']), sig
 
     def call_known_stmt(self, s, c, target, env, ctx, ind, cont):
+        c = self.expand_star(c, env)
         sig = self.known[ast.unparse(c.func)]['py']
         txt, inout = self.call_text(c, sig, env)
         if sig['can_raise']:
@@ -1341,9 +1510,9 @@ class PyFn(Fn):
             return out + cont(env, ind)
         if sig['can_raise']:
             v = self.fresh()
-            return out + ('%smatch %s with\n%s| Except.error e__ =>\n%s%s| Except.ok %s =>\n%s'
-                          % (ind, res_src, ind, ctx.raise_('e__', env, ind + '  '), ind, v,
-                             bind_result(v, env, ind + '  ')))
+            return out + ('%sPy.caseE %s (fun e__ =>\n%s%s  ) (fun %s =>\n%s%s  )\n'
+                          % (ind, res_src, ctx.raise_('e__', env, ind + '    '), ind, v,
+                             bind_result(v, env, ind + '    '), ind))
         return out + bind_result(res_src, env, ind)
 
     def if_stmt(self, s, env, ctx, ind, cont):
@@ -1472,8 +1641,8 @@ class PyFn(Fn):
             out = '%slet %s := Py.forE %s %s (fun (%s : %s) (%s : %s) =>\n%s%s  )\n' % (
                 ind, r, src, packs(env), st, ptype(), it, self.lty(et), btxt, ind)
             out += unpack(r + '.1', env3, ind)
-            return out + ('%smatch %s.2 with\n%s| some e__ =>\n%s%s| none =>\n%s'
-                          % (ind, r, ind, ctx.raise_('e__', env3, ind + '  '), ind, cont(env3, ind + '  ')))
+            return out + ('%sPy.caseO %s.2 (fun e__ =>\n%s%s  ) (\n%s%s  )\n'
+                          % (ind, r, ctx.raise_('e__', env3, ind + '    '), ind, cont(env3, ind + '    '), ind))
         out = '%slet %s := List.foldl (fun (%s : %s) (%s : %s) =>\n%s%s  ) %s %s\n' % (
             ind, r, st, ptype(), it, self.lty(et), btxt, ind, packs(env), src)
         out += unpack(r, env3, ind)
@@ -1627,6 +1796,7 @@ def _translate_once(self):
         lean=self.spec.get('lean', self.spec['func']), params=sig_params, mutates=list(self.mutates), state=list(self.state),
         writes_world=self.writes_world, can_raise=self.can_raise, ret_ty=rt, mu=bool(mu_keys),
         extra_params=[(n, self.fill(t)) for n, t in self.extra_params], ret_alias=dict(self.ret_alias),
+        property=bool(self.spec.get('property')),
         tvars_used=list(self.used_tvars)))
     return 'def %s %s%s%s : %s :=\n%s' % (self.spec.get('lean', self.spec['func']), tvs, head_params, extra, rty, body)
 
